@@ -72,6 +72,12 @@ def check(ctx):
             ctx.violation("R-C16.1", f"eda:{nm}", f"pattern {nm} is exponentially ambiguous: {w}", file=lx.rel, function=nm)
     ctx.require_instances("R-C16.1", 3)
 
+    # the parser never catches its own error: ParseError ends the parse
+    from .. import e1 as _e1s
+    _exs, _gs = _e1s.get()
+    ctx.oblige("R-C16.3", "no handler inside the parser catches ParseError", not _exs.swallows, sample={"rule": "R-C16.3", "handlers catching ParseError / Exception inside productions": [f"{m_}:{ln_}" for m_, ln_, _ in _exs.swallows]})
+    for m_, ln_, names_ in _exs.swallows:
+        ctx.violation("R-C16.3", f"swallowed-error:{m_}", f"{m_} (line {ln_}) catches {names_}: a swallowed error restarts the speculative parse one level further out: every nesting level doubles the work on rejected input", file="pycparser/c_parser.py", function=f"CParser.{m_}", line=ln_)
     # ---- R-C16.4 ---------------------------------------------------------------
     from .c09 import _single_def
     n4 = 0
